@@ -24,6 +24,8 @@ pub mod cls {
     pub const SER: u32 = 1024;
     pub const UNEXPECTED_TYPE: u32 = 2048;
     pub const BUILDER: u32 = 4096;
+    /// an error variant that did not exist when the monitors were written (never expected by any oracle)
+    pub const OTHER: u32 = 8192;
     /// arithmetic / date range failure: "out of bounds" family
     pub const RANGE: u32 = OUT_OF_BOUNDS | NUMERIC_OVERFLOW;
 
@@ -31,7 +33,7 @@ pub mod cls {
         let all = [
             (INVALID_TYPE, "InvalidType"), (INVALID_CAST, "InvalidCast"), (OUT_OF_BOUNDS, "ValueOutOfBounds"), (NUMERIC_OVERFLOW, "NumericOverflow"),
             (DIV_ZERO, "DivisionByZero"), (UNKNOWN_REF, "UnknownRef"), (UNKNOWN_INDEX, "UnknownIndex"), (USER_FN, "UserFunctionError"),
-            (UNKNOWN_FN, "UnknownUserFunction"), (INVALID_SYMBOL, "InvalidSymbol"), (SER, "ValueSerializationError"), (UNEXPECTED_TYPE, "UnexpectedValueType"), (BUILDER, "builder-error"),
+            (UNKNOWN_FN, "UnknownUserFunction"), (INVALID_SYMBOL, "InvalidSymbol"), (SER, "ValueSerializationError"), (UNEXPECTED_TYPE, "UnexpectedValueType"), (BUILDER, "builder-error"), (OTHER, "unknown-error-variant"),
         ];
         all.iter().filter(|(m, _)| mask & m != 0).map(|(_, n)| *n).collect::<Vec<_>>().join("|")
     }
@@ -85,6 +87,9 @@ pub fn classify(e: &reval::Error) -> Obs {
         E::InvalidFunctionName(n) => (cls::BUILDER, "InvalidFunctionName", Pay::Name(n.clone())),
         E::DuplicateFunctionName(n) => (cls::BUILDER, "DuplicateFunctionName", Pay::Name(n.clone())),
         E::DuplicateRuleName(n) => (cls::BUILDER, "DuplicateRuleName", Pay::Name(n.clone())),
+        // a variant added after the monitors were written must not stop them from building: it is an error no oracle expects
+        #[allow(unreachable_patterns)]
+        _ => (cls::OTHER, "unknown-error-variant", Pay::Any),
     };
     Obs::Err { cls: c, name: n.to_string(), pay: p, text }
 }
